@@ -203,8 +203,13 @@ fn parse_eq_delegate_by(
         return Ok(SpanOpt(Delegate::ByRef(RefDelegate::AsRef), span));
     }
 
-    // `Self` is a keyword, which `syn::Ident`'s own parser rejects
-    let ident = input.call(<syn::Ident as syn::ext::IdentExt>::parse_any)?;
+    // `Self` is a keyword, which `syn::Ident`'s own parser rejects (as it must reject every other keyword)
+    let ident = if input.peek(syn::token::SelfType) {
+        let self_type: syn::token::SelfType = input.parse()?;
+        syn::Ident::new("Self", self_type.span)
+    } else {
+        input.parse::<syn::Ident>()?
+    };
 
     Ok(SpanOpt(
         match ident.to_string().as_str() {
